@@ -1203,6 +1203,13 @@ func (f *Facts) evalTable(s Sum, b map[*types.Var]Value) (*Table, bool, Value) {
 		return nil, true, Value{}
 	case VInvalid, VAmbiguous:
 		return nil, false, v
+	case VObj:
+		// an element that names another package-level literal table (one shared sub-table used in several tables)
+		if tv, ok := v.Obj.(*types.Var); ok {
+			if t := f.Tables[tv]; t != nil {
+				return t, true, Value{}
+			}
+		}
 	}
 	return nil, false, Value{Kind: VInvalid, Why: "not a table: " + v.String()}
 }
